@@ -576,7 +576,7 @@ func c12Run(b *core.B) {
 	big := c12Sigs(3)
 	n := 20000
 	if b.Tier == core.Thorough {
-		n = 600000
+		n = 3000000
 	}
 	for i := 0; i < n/b.NBatches; i++ {
 		s := big[r.Intn(len(big))]
